@@ -379,6 +379,15 @@ func c03Hazard(t recv.Trace, delivered int) string {
 // an overloaded machine a run can differ for reasons that are not properties of
 // the input; such transient differences are counted and noted, never reported.
 func c03One(c *fw.Ctx, sink *xportSink, cs c03Case, stream []byte, t recv.Trace) {
+	if xportLockStalls >= 6 {
+		// the library leaks its read lock (recorded as C03/no-termination): every further
+		// case would wait 3 s per message; the rest of this unit is skipped
+		if xportLockStalls == 6 {
+			xportLockStalls++
+			c.NotExhaustive("unit stopped early: the read lock was leaked repeatedly (see the C03/no-termination violation)")
+		}
+		return
+	}
 	c.Eval()
 	class, detail := c03Try(c, cs, stream, t)
 	if class == "" {
@@ -420,7 +429,8 @@ func c03Try(c *fw.Ctx, cs c03Case, stream []byte, t recv.Trace) (class string, d
 		conn = websocket.VerifNewConn(script, cs.Client, xportComp(cs.Comp, cs.Client), 0)
 		obs = xportReadAll(context.Background(), conn, cs.Buf)
 	})
-	if conn != nil {
+	if conn != nil && !strings.Contains(obs.Stuck, "read lock") {
+		// (a connection whose read lock is leaked cannot be closed either: it is abandoned)
 		if p := fw.Recover(func() { conn.CloseNow() }); p != "" && panicked == "" {
 			panicked = p
 		}
@@ -473,6 +483,9 @@ func c03Try(c *fw.Ctx, cs c03Case, stream []byte, t recv.Trace) (class string, d
 	_, unconstrained := t.End.(recv.Unconstrained)
 	if unconstrained && len(want) > 0 && want[len(want)-1].Unconstrained {
 		want = want[:len(want)-1]
+	}
+	if obs.AfterEOF != "" && !unconstrained {
+		viol("C03/data-after-end-of-message/"+role+"/"+cs.Comp, "%s\nmodel: %s\nlibrary: %s", obs.AfterEOF, exp, got)
 	}
 	if obs.AfterErr != "" && !unconstrained {
 		viol("C03/failed-read-then-clean-end/"+role+"/"+cs.Comp, "a Read of the last message failed (%v); the next Read on the same reader %s\nmodel: %s\nlibrary: %s", obs.Err, obs.AfterErr, exp, got)
